@@ -526,6 +526,12 @@ def ob_lock_il(w, P):
             done[name] = True
         return run
     w.preconnect(cB, (100, 2) if same else (200, 1))
+    if P.get('history'):
+        # contender A has held the resource before and given it back in full: what that leaves behind (an owner tag with count 0, a
+        # restored permit) must not let A back in past the other contender
+        lkA.acquire()
+        lkA.release()
+        flag('history')
     w.start_events()
     il = w.interleave(body('A', lkA), body('B', lkB), w.int('at', 0, P.get('max_events', 14)), w.int('at2', 0, P.get('max_events', 14)),
                       id_a=(100, 1), id_b=(100, 2) if same else (200, 1))
@@ -668,6 +674,12 @@ def jobs(tier):
                 out.append(dict(id='lock.%s.il.%s.v%d' % (kind, 'thread' if same else 'process', v), func='ob_lock_il', params=dict(kind=kind, same_object=same, value=v), tags=['C15'],
                                 functions=LF, weight=10, twin=False, must_reach=['both_suspended']))
         out.append(dict(id='lock.%s.il.fanout' % kind, func='ob_lock_il', params=dict(kind=kind, fanout=True, value=1), tags=['C15'], functions=LF, weight=10, twin=False, must_reach=['both_suspended']))
+    for kind in ('lock', 'rlock', 'sem'):
+        for same in (False, True):
+            out.append(dict(id='lock.%s.il.history.%s' % (kind, 'thread' if same else 'process'), func='ob_lock_il', params=dict(kind=kind, same_object=same, value=1, history=True), tags=['C15'],
+                            functions=LF, weight=10, twin=False, must_reach=['both_suspended', 'history']))
+        out.append(dict(id='lock.%s.il.history.fanout' % kind, func='ob_lock_il', params=dict(kind=kind, fanout=True, value=1, history=True), tags=['C15'], functions=LF, weight=10, twin=False,
+                        must_reach=['both_suspended', 'history']))
     for kind in ('rlock', 'sem'):
         for fan in (False, True):
             out.append(dict(id='lock.%s.badrel.nested%s' % (kind, '.fanout' if fan else ''), func='ob_badrel_nested', params=dict(kind=kind, fanout=fan, value=1), tags=['C15', 'C06'], functions=LF, weight=4, twin=False))
